@@ -138,6 +138,7 @@ func cmdCheck(prop, tier string) int {
 		strpool      []string
 		pr           gosym.PathResult
 		witness      bool
+		modelOnly    bool
 	}
 	var cands []cand
 	var hev []harnessEvidence
@@ -190,10 +191,10 @@ func cmdCheck(prop, tier string) int {
 			funcs[f] += n
 		}
 		for _, v := range res.Violations {
-			cands = append(cands, cand{s.h.Dir, s.h.Func, s.params, cfg.StrPool, v, false})
+			cands = append(cands, cand{s.h.Dir, s.h.Func, s.params, cfg.StrPool, v, false, s.h.ModelOnly})
 		}
 		for _, w := range res.Witnesses {
-			cands = append(cands, cand{s.h.Dir, s.h.Func, s.params, cfg.StrPool, w, true})
+			cands = append(cands, cand{s.h.Dir, s.h.Func, s.params, cfg.StrPool, w, true, s.h.ModelOnly})
 		}
 		for _, ic := range res.Inconclusive {
 			inconclusive = append(inconclusive, s.h.Func+": "+ic.Kind+": "+trunc(ic.Msg, 400))
@@ -209,6 +210,9 @@ func cmdCheck(prop, tier string) int {
 	// native replay, one go test per package dir
 	byDir := map[string][]int{}
 	for i, c := range cands {
+		if c.modelOnly {
+			continue // environment-model harness: there is no native counterpart of the model (see Harness.ModelOnly)
+		}
 		byDir[c.dir] = append(byDir[c.dir], i)
 	}
 	native := make([]nativeResult, len(cands))
@@ -243,6 +247,20 @@ func cmdCheck(prop, tier string) int {
 	var violationLines []string
 	for i, c := range cands {
 		n := native[i]
+		if c.modelOnly {
+			if c.witness {
+				if len(samples) < 6 {
+					samples = append(samples, map[string]interface{}{"harness": c.harness, "path_decisions": c.pr.Prefix, "input_model": c.pr.Model, "observed": c.pr.Observed, "native_replay": "not applicable (environment model)"})
+				}
+				continue
+			}
+			// a counterexample of an environment-model harness is a counterexample with respect to the
+			// stated model; it is confirmed by re-executing the same decision prefix in the engine
+			n = nativeResult{Kind: "assert", Msg: "confirmed against the environment model (file-system / scheduler), not natively"}
+			if c.pr.Kind == "panic" {
+				n.Kind = "panic"
+			}
+		}
 		if c.witness {
 			ok := n.Kind == "pass"
 			for tag, v := range c.pr.Observed {
@@ -268,7 +286,7 @@ func cmdCheck(prop, tier string) int {
 		// violation candidate
 		reproduced := n.Kind == "assert" || n.Kind == "panic"
 		if c.pr.Kind == "deadlock" {
-			reproduced = false
+			reproduced = c.modelOnly
 		}
 		if !reproduced {
 			inconclusive = append(inconclusive, fmt.Sprintf("ENCODING-MISMATCH %s: candidate %s (%s) did not reproduce natively (native: %s %s)", c.harness, c.pr.Kind, trunc(c.pr.Msg, 300), n.Kind, trunc(n.Msg, 200)))
